@@ -58,7 +58,8 @@ package gcetcbendorsement
 
 //@ func TdxPolicy
 //@   appendframe
-//@   modifies pbsrc, pbok
+//@   modifies pbsrc, pbok, lastTdxPolicy
+//@   ghostset lastTdxPolicy = result
 //@   requires opts != nil && endorsement != nil
 //@   sweep[C07]
 //@   assigns[C17] nothing
@@ -87,9 +88,15 @@ package gcetcbendorsement
 //@   ensures[C01] err == nil ==> vfEndorsement != nil
 //@   ensures[C02] err == nil ==> vfVmsas == opts.ExpectedLaunchVmsas
 
+// C02 (TDX): the quote is validated against the policy derived from the (authenticated) endorsement for the named RAM
+// size - TdxPolicy is always consulted with the caller's base policy, overwrite switch and expected RAM size, its result
+// is what is translated to validation options, and those options are what the quote is checked with.
 //@ func TdxValidate
 //@   assigns[C09] nothing
 //@   modifies *
+//@   atcall TdxPolicy requires[C02] same(p1, endorsement) && p2 != nil && p2.RAMGiB == opts.ExpectedRAMGiB && p2.Overwrite == opts.Overwrite && p2.Base == opts.BasePolicy
+//@   atcall PolicyToOptions requires[C02] p0 != nil && p0 == lastTdxPolicy
+//@   atcall TdxQuote requires[C02] p1 != nil && p1 == lastTdxOpts
 //@   requires opts != nil
 //@   sweep[C07]
 //@   ensures[C01] err == nil && opts.Endorsement != nil ==> authentic(val(opts.Endorsement.SerializedUefiGolden), val(opts.Endorsement.Signature), opts.RootsOfTrust, opts.Now)
@@ -117,3 +124,10 @@ package gcetcbendorsement
 //@   modifies wrLen, wrLog, rdLeft
 //@   sweep[C19] index slice div typeassert panic makeslice nilmap
 //@   atcall WriteBytesForm requires[C19] endorsement != nil ==> same(p0, endorsement.Signature)
+
+// C19 (raw renderings are the exact bytes): the form names map to the forms one to one - "bin" is the raw form (0),
+// "hex" 1, "base64" 3, "auto" 4 (2 is the GUID-aware hex form, which has no name) - and nothing else is accepted.
+//@ func ParseBytesForm
+//@   assigns nothing
+//@   ensures[C19] (err == nil) == (form == "bin" || form == "hex" || form == "base64" || form == "auto")
+//@   ensures[C19] err == nil ==> result0 == ite(form == "bin", 0, ite(form == "hex", 1, ite(form == "base64", 3, 4)))
